@@ -18,7 +18,25 @@ Quick tour
     root    {"curve": "P256"|"P384", "time": "Valid"|"Expired"|"NotYet"}
     x509    list, TOP-DOWN ([0] is certified by the root of trust, [-1] certifies the attestation
             key).  Each: {"name", "time": Valid|Expired|NotYet, "curve": P256|P384|RSA,
-            "sig": "parent"|"other"|"swap"}
+            "sig": "parent"|"other"|"swap"|"foreign",
+            "naming": canon|selfissued|likeparent|nomatch|rootissuer|dupsubject|rootsubject,
+            "content": {serial, bc, key_usage, ski, hash} (see random_content)}
+            naming = which distinguished NAMES are written inside the certificate (the signature is
+            always made by the key of the element that certifies it, whatever the names say):
+              canon        fresh subject, issuer = subject of the certifying certificate
+              selfissued   fresh subject, issuer = that same subject
+              likeparent   subject = issuer = subject of the certifying certificate (key rollover style)
+              nomatch      issuer = a name no certificate has
+              rootissuer   issuer = the root's subject (differs from canon below the top element)
+              dupsubject   subject = subject of another X.509 element (not the certifying one)
+              rootsubject  subject = the root's subject
+    time_edge bool: validity windows touch the instant `material["clock"]` (= now truncated to the
+            second) exactly: Valid -> not_before == clock and/or not_after == clock; Expired ->
+            not_after == clock - 1 s; NotYet -> not_before == clock + 1 s.  Only meaningful when the
+            code under test is run with its clock frozen at material["clock"].
+    vary_content bool: serial number, extensions (basic constraints CA true/false/absent, key usage,
+            subject key id), signature hash and name style of every certificate are seeded
+            boundary-first choices instead of the fixed defaults
     attkey  {"name", "sig": parent|other|swap, "auth_len": 1..,
              "bind": ok|noauth|misplaced|reversed|otherkey|random,
              "key": ok|offcurve|swapped, "encoding": uncompressed|raw|compressed}
@@ -308,10 +326,19 @@ class Key:
 FAR_DAYS = (1, 2, 30, 365, 3650)      # every window edge is >= 1 day away from "now"
 
 
-def validity(time_class, now, rng):
-    """(not_before, not_after) for a time class; all edges at least one day away from now."""
+def validity(time_class, now, rng, edge=False):
+    """(not_before, not_after) for a time class; all edges at least one day away from now — unless
+    `edge`, where the window touches `now` (a whole second) exactly / misses it by one second."""
     a = rng.choice(FAR_DAYS) * DAY + datetime.timedelta(seconds=rng.randrange(0, 3600))
     b = rng.choice(FAR_DAYS) * DAY + datetime.timedelta(seconds=rng.randrange(0, 3600))
+    sec = datetime.timedelta(seconds=1)
+    if edge:
+        if time_class == "Valid":
+            return rng.choice(((now, now + b), (now - a, now), (now, now), (now - sec, now + sec)))
+        if time_class == "Expired":
+            return now - a, now - sec
+        if time_class == "NotYet":
+            return now + sec, now + b
     if time_class == "Valid":
         return now - a, now + b
     if time_class == "Expired":
@@ -321,20 +348,62 @@ def validity(time_class, now, rng):
     raise ValueError(time_class)
 
 
-def make_x509(subject_cn, subject_key, issuer_cn, issuer_key, time_class, now, rng, ca=True):
-    """DER of a certificate for subject_key signed by issuer_key."""
-    nb, na = validity(time_class, now, rng)
+SERIAL_BOUNDARIES = (1, 2, 127, 128, 255, 256, 2 ** 63, 2 ** 64 - 1, 2 ** 159 - 1)
+DEFAULT_CONTENT = {"serial": None, "bc": "position", "key_usage": None, "ski": False, "hash": None}
 
-    def name(cn):
-        return x509.Name([x509.NameAttribute(NameOID.COMMON_NAME, cn),
-                          x509.NameAttribute(NameOID.ORGANIZATION_NAME, "verif harness")])
+
+def random_content(rng):
+    """Free content of a certificate (nothing the property speaks about), boundary-first."""
+    return {"serial": rng.choice(SERIAL_BOUNDARIES + (None, None, None)),     # None = random 150 bits
+            "bc": rng.choice(("ca", "ca0", "leaf", "absent")),               # basic constraints
+            "key_usage": rng.choice((None, None, "ca", "leaf")),
+            "ski": rng.random() < 0.5,
+            "hash": rng.choice((None, None, None, "sha384", "sha512"))}
+
+
+def dn(cn, style="cn_o"):
+    """Distinguished name for a common name; a function of (cn, style) only, so that 'issuer of the
+    child == subject of the parent' holds whenever the common names are equal."""
+    attrs = [x509.NameAttribute(NameOID.COMMON_NAME, cn)]
+    if style in ("cn_o", "full"):
+        attrs.append(x509.NameAttribute(NameOID.ORGANIZATION_NAME, "verif harness"))
+    if style == "full":
+        attrs += [x509.NameAttribute(NameOID.LOCALITY_NAME, "Santa Clara"),
+                  x509.NameAttribute(NameOID.STATE_OR_PROVINCE_NAME, "CA"),
+                  x509.NameAttribute(NameOID.COUNTRY_NAME, "US")]
+    return x509.Name(attrs)
+
+
+def make_x509(subject_cn, subject_key, issuer_cn, issuer_key, time_class, now, rng, ca=True,
+              content=None, style="cn_o", edge=False):
+    """DER of a certificate for subject_key signed by issuer_key (names are whatever is asked for:
+    the signature does not depend on them)."""
+    nb, na = validity(time_class, now, rng, edge)
+    ct = dict(DEFAULT_CONTENT)
+    ct.update(content or {})
+    serial = ct["serial"] if ct["serial"] is not None else (rng.getrandbits(150) | 1)
     b = (x509.CertificateBuilder()
-         .subject_name(name(subject_cn)).issuer_name(name(issuer_cn))
+         .subject_name(dn(subject_cn, style)).issuer_name(dn(issuer_cn, style))
          .public_key(subject_key.pub)
-         .serial_number(rng.getrandbits(150) | 1)
-         .not_valid_before(nb.replace(microsecond=0)).not_valid_after(na.replace(microsecond=0))
-         .add_extension(x509.BasicConstraints(ca=ca, path_length=None), critical=True))
-    cert = b.sign(issuer_key.priv, issuer_key.cert_hash())
+         .serial_number(serial)
+         .not_valid_before(nb.replace(microsecond=0)).not_valid_after(na.replace(microsecond=0)))
+    bc = ct["bc"]
+    if bc == "position":
+        bc = "ca" if ca else "leaf"
+    if bc != "absent":
+        b = b.add_extension(x509.BasicConstraints(ca=(bc != "leaf"),
+                                                  path_length=(0 if bc == "ca0" else None)),
+                            critical=True)
+    if ct["key_usage"]:
+        isca = ct["key_usage"] == "ca"
+        b = b.add_extension(x509.KeyUsage(
+            digital_signature=not isca, content_commitment=not isca, key_encipherment=False,
+            data_encipherment=False, key_agreement=False, key_cert_sign=isca, crl_sign=isca,
+            encipher_only=False, decipher_only=False), critical=True)
+    if ct["ski"]:
+        b = b.add_extension(x509.SubjectKeyIdentifier.from_public_key(subject_key.pub), critical=False)
+    h = {"sha384": hashes.SHA384(), "sha512": hashes.SHA512()}.get(ct["hash"]) or issuer_key.cert_hash()
+    cert = b.sign(issuer_key.priv, h)
     return cert.public_bytes(serialization.Encoding.DER)
 
 
@@ -375,6 +444,8 @@ def default_spec(depth=2):
         "extra": [],
         "embed": None,
         "reparent": {},
+        "time_edge": False,
+        "vary_content": False,
         "rot": "right",
         "shuffle": False,
         "pem_newlines": False,
@@ -405,6 +476,18 @@ def build(spec, rng, now=None):
     sp = default_spec(2)
     sp.update(spec)
     keys, der, pem = {}, {}, {}
+    edge = bool(sp.get("time_edge"))
+    if edge:
+        now = now.replace(microsecond=0)        # the instant the code's clock has to be frozen at
+    vary = bool(sp.get("vary_content"))
+    style = rng.choice(("cn", "cn_o", "full")) if vary else "cn_o"
+    _mk = globals()["make_x509"]
+
+    def make_x509(scn, skey, icn, ikey, time_class, now_, rng_, ca=True, content=None, use_edge=False):
+        if content is None and vary:
+            content = random_content(rng_)
+        return _mk(scn, skey, icn, ikey, time_class, now_, rng_, ca=ca, content=content, style=style,
+                   edge=use_edge)
     # --- root of trust -------------------------------------------------------------------------
     root_spec = {"curve": "P256", "time": "Valid"}
     root_spec.update(sp.get("root") or {})
@@ -428,10 +511,13 @@ def build(spec, rng, now=None):
     parent = ROOT_NAME
     xnames = []
     pending_swaps = []
+    for xs in list(sp["x509"]) + list(sp.get("extra") or []):
+        cns[xs["name"]] = "verif %s %d" % (xs["name"], rng.getrandbits(32))
+    if sp.get("embed"):
+        cns["embedded:" + ROOT_NAME] = root_cn if sp["embed"]["kind"] == "genuine" else cns["foreign_root"]
     for i, xs in enumerate(sp["x509"]):
         n = xs["name"]
         keys[n] = Key(xs.get("curve", "P256"))
-        cns[n] = "verif %s %d" % (n, rng.getrandbits(32))
         sig = xs.get("sig", "parent")
         signer = keys[parent] if sig != "other" else other_key(keys[parent])
         issuer_cn = cns[parent]
@@ -440,8 +526,29 @@ def build(spec, rng, now=None):
         if sig == "foreign":
             assert i == 0, "only the top element can hang from the foreign root"
             signer, issuer_cn = keys["foreign_root"], cns["foreign_root"]
+        # the names written inside the certificate (the signer does not change)
+        naming = xs.get("naming", "canon")
+        if naming == "selfissued":
+            issuer_cn = cns[n]
+        elif naming == "likeparent":
+            cns[n] = issuer_cn
+        elif naming == "nomatch":
+            issuer_cn = "nobody %d" % rng.getrandbits(32)
+        elif naming == "rootissuer":
+            issuer_cn = root_cn
+        elif naming == "dupsubject":
+            others = sorted(k for k in cns if k not in (n, parent, ROOT_NAME, "foreign_root")
+                            and not (k.startswith("embedded:") and parent == ROOT_NAME
+                                     and sp["embed"]["kind"] == "genuine"))
+            if not others:
+                raise ValueError("dupsubject: no other X.509 element to share a subject with")
+            cns[n] = cns[rng.choice(others)]
+        elif naming == "rootsubject":
+            cns[n] = root_cn
+        elif naming != "canon":
+            raise ValueError(naming)
         der[n] = make_x509(cns[n], keys[n], issuer_cn, signer, xs.get("time", "Valid"), now, rng,
-                           ca=(i < len(sp["x509"]) - 1))
+                           ca=(i < len(sp["x509"]) - 1), content=xs.get("content"), use_edge=edge)
         if sig == "swap":
             pending_swaps.append(n)
         elements[n] = {"name": n, "type": "x509_pem", "signed_by": parent}
@@ -451,9 +558,9 @@ def build(spec, rng, now=None):
         n = xs["name"]
         p = xs.get("parent", ROOT_NAME)
         keys[n] = keys[xs["samekey_as"]] if xs.get("samekey_as") else Key(xs.get("curve", "P256"))
-        cns[n] = "verif %s %d" % (n, rng.getrandbits(32))
         signer = keys[p] if xs.get("sig", "parent") != "other" else other_key(keys[p])
-        der[n] = make_x509(cns[n], keys[n], cns[p], signer, xs.get("time", "Valid"), now, rng)
+        der[n] = make_x509(cns[n], keys[n], cns[p], signer, xs.get("time", "Valid"), now, rng,
+                           use_edge=edge)
         elements[n] = {"name": n, "type": "x509_pem", "signed_by": p}
     # an X.509 element "carrying the signature of another element": splice the signature of a
     # sibling certificate issued by the same key for another subject into this certificate
@@ -536,7 +643,7 @@ def build(spec, rng, now=None):
             eder = der[ROOT_NAME] if emb["kind"] == "genuine" else foreign_der
         else:
             esigner = ekey if emb.get("sig", "self") == "self" else other_key(ekey)
-            eder = make_x509(ecn, ekey, ecn, esigner, emb.get("time", "Valid"), now, rng)
+            eder = make_x509(ecn, ekey, ecn, esigner, emb.get("time", "Valid"), now, rng, use_edge=edge)
         der["embedded:" + ROOT_NAME] = eder
         elements[ROOT_NAME] = {"name": ROOT_NAME, "type": "x509_pem", "signed_by": ROOT_NAME,
                                "message": der_to_b64(eder, sp.get("pem_newlines", False))}
@@ -556,7 +663,8 @@ def build(spec, rng, now=None):
     roots["top"] = pem[xnames[0]] if xnames else pem[ROOT_NAME]
     roots["foreign"] = der_to_pem(foreign_der)
     material = {
-        "now": now, "keys": keys, "der": der, "pem": pem, "order": order, "spec": sp,
+        "now": now, "clock": now if edge else None, "keys": keys, "der": der, "pem": pem,
+        "order": order, "spec": sp,
         "names": {"x509": xnames, "attkey": an, "quote": qn, "root": ROOT_NAME},
         "attkey": {"report_body": qe_body, "fields": qe_fields, "key_xy": att_xy,
                    "key_field": key_field, "auth_data": auth_data, "signature": att_sig},
@@ -819,7 +927,7 @@ def abstract_of(mat, effects=None):
         else:
             signer = keyid[orig_parent] if sig_ok else "other"
         return {"kind": "x509", "by": rep.get(n, orig_parent), "key": keyid[n],
-                "sigBy": signer,
+                "sigBy": signer, "naming": xs.get("naming", "canon"),
                 "time": xs.get("time", "Valid"), "curve": _curve_class(mat["keys"][n]),
                 "binds": True, "keyValid": True}
     parent = ROOT_NAME
@@ -833,13 +941,14 @@ def abstract_of(mat, effects=None):
         ek = ROOT_NAME if emb["kind"] == "genuine" else "foreign"
         self_ok = emb.get("sig", "self") == "self" and "sig" not in effects.get(ROOT_NAME, ())
         els[ROOT_NAME] = {"kind": "x509", "by": ROOT_NAME, "key": ek, "sigBy": ek if self_ok else "other",
+                          "naming": "canon",
                           "time": emb.get("time", "Valid"), "curve": "P256", "binds": True,
                           "keyValid": True}
     a = dict(default_spec()["attkey"])
     a.update(sp.get("attkey") or {})
     an = a["name"]
     eff = effects.get(an, ())
-    els[an] = {"kind": "attkey", "by": rep.get(an, parent), "key": an,
+    els[an] = {"kind": "attkey", "by": rep.get(an, parent), "key": an, "naming": "na",
                "sigBy": keyid[parent] if (a.get("sig", "parent") == "parent" and "sig" not in eff)
                else "other",
                "time": "na", "curve": "P256",
@@ -850,7 +959,7 @@ def abstract_of(mat, effects=None):
     q.update(sp.get("quote") or {})
     qn = q["name"]
     eff = effects.get(qn, ())
-    els[qn] = {"kind": "quote", "by": rep.get(qn, an), "key": "nokey",
+    els[qn] = {"kind": "quote", "by": rep.get(qn, an), "key": "nokey", "naming": "na",
                "sigBy": an if (q.get("sig", "parent") == "parent" and "sig" not in eff) else "other",
                "time": "na", "curve": "na",
                "binds": q.get("bind", "ok") in ("ok", "ok_tail") and "bind" not in eff,
@@ -864,6 +973,6 @@ def abstract_of(mat, effects=None):
         rkey, rcurve = "foreign", "P256"
     else:
         rkey, rcurve = "wrong", _curve_class(mat["keys"]["fresh_root"])
-    rot = {"kind": "x509", "by": ROOT_NAME, "key": rkey, "sigBy": ROOT_NAME, "time": "Valid",
+    rot = {"kind": "x509", "by": ROOT_NAME, "key": rkey, "sigBy": ROOT_NAME, "time": "Valid", "naming": "canon",
            "curve": rcurve, "binds": True, "keyValid": True}
     return {"cert": els, "rot": rot, "target": qn, "unspecified": unspecified}
